@@ -9,8 +9,8 @@ class TooBig(Exception):
 def event_intervals(e, cap=2_000_000):
     """list of (lo, hi) byte intervals [lo,hi) touched by event e (offsets relative to its object), unmerged"""
     off = e.off
-    size = e.size
-    if size == 0:
+    size = e.size + getattr(e, 'slack', 0)   # uncertain position: the whole window the access may touch
+    if e.size == 0:
         return []
     if is_int(off):
         return [(signed(off, 64), signed(off, 64) + size)]
@@ -52,9 +52,10 @@ def event_intervals(e, cap=2_000_000):
 def hull(e):
     """(lo, hi) hull of event e, exact integers"""
     off = e.off
+    sl = getattr(e, 'slack', 0)
     if is_int(off):
         o = signed(off, 64)
-        return o, o + e.size
+        return o, o + e.size + sl
     counts = dict(e.reps)
     lo = hi = signed(off.c0, 64)
     for k, c in off.co.items():
@@ -64,7 +65,7 @@ def hull(e):
             hi += ext
         else:
             lo += ext
-    return lo, hi + e.size
+    return lo, hi + e.size + sl
 
 
 def normalize(iv):
